@@ -7,6 +7,7 @@ From SU.Model Require Import Midi.
 From SU.Spec Require Import MidiSpec.
 From SU.Proofs Require Import MidiParserProofs MidiLiftProofs.
 From SU.Proofs Require Import MidiExtraProofs.
+From SU.Proofs Require Import MidiKillers.
 Open Scope Z_scope.
 
 (** the messages the byte-at-a-time parser completes are exactly those of the
@@ -82,6 +83,49 @@ Theorem C06_boundary_condition_needed :
   <> observe (run_bytes 0 ([144; 60; 100] ++ [248; 62; 100])).
 Proof. exact boundary_condition_needed. Qed.
 
+(** the two byte classifiers the reference decoder shares with the model, pinned independently: a status byte is a byte >= 128 *)
+Theorem C06_is_status_byte_spec : forall b, is_byte b -> is_status_byte b = (128 <=? b).
+Proof. exact is_status_byte_spec. Qed.
+
+(** a system message byte is a byte >= 240 (a model that classified 0xB0..0xBF as system bytes would satisfy every other C06 theorem, because `decode` uses the same classifier) *)
+Theorem C06_is_system_message_spec : forall b, is_byte b -> is_system_message b = (240 <=? b).
+Proof. exact is_system_message_spec. Qed.
+
+(** the reference decoder on every three-byte channel voice message, by status nibble *)
+Theorem C06_decode_voice_message : forall ch a b,
+  0 <= ch < 16 -> 0 <= a < 128 -> 0 <= b < 128 ->
+  decode [128 + ch; a; b] = [MNoteOff ch a b] /\
+  decode [144 + ch; a; b] = [MNoteOn ch a b] /\
+  decode [176 + ch; a; b] = [MControlChange ch a b] /\
+  decode [224 + ch; a; b] = [MPitchBend ch b a] /\
+  decode [160 + ch; a; b] = [] /\ decode [192 + ch; a; b] = [] /\ decode [208 + ch; a; b] = [].
+Proof. exact decode_voice_message. Qed.
+
+(** byte level, from ANY receiver state: the three bytes of a control change on the listened channel act exactly like handle_cc *)
+Theorem C06_cc_bytes_any_state : forall r c v,
+  0 <= r_channel r < 16 -> 0 <= c < 128 -> 0 <= v < 128 ->
+  observe (fold_left rx_parse [176 + r_channel r; c; v] r) = observe (handle_cc r c v).
+Proof. exact cc_bytes_any_state. Qed.
+
+(** same for note-on *)
+Theorem C06_note_on_bytes_any_state : forall r n v,
+  0 <= r_channel r < 16 -> 0 <= n < 128 -> 0 < v < 128 ->
+  observe (fold_left rx_parse [144 + r_channel r; n; v] r) = observe (handle_note_on r n v).
+Proof. exact note_on_bytes_any_state. Qed.
+
+(** same for note-off *)
+Theorem C06_note_off_bytes_any_state : forall r n v,
+  0 <= r_channel r < 16 -> 0 <= n < 128 -> 0 <= v < 128 ->
+  observe (fold_left rx_parse [128 + r_channel r; n; v] r) = observe (handle_note_off r n).
+Proof. exact note_off_bytes_any_state. Qed.
+
+(** same for pitch bend (LSB first on the wire) *)
+Theorem C06_pitch_bend_bytes_any_state : forall r lsb msb,
+  0 <= r_channel r < 16 -> 0 <= lsb < 128 -> 0 <= msb < 128 ->
+  observe (fold_left rx_parse [224 + r_channel r; lsb; msb] r)
+  = observe (apply_msg r (MPitchBend (r_channel r) msb lsb)).
+Proof. exact pitch_bend_bytes_any_state. Qed.
+
 Print Assumptions C06_parser_decodes.
 Print Assumptions C06_framing.
 Print Assumptions C06_realtime_transparent.
@@ -91,3 +135,10 @@ Print Assumptions C06_ops_lift.
 Print Assumptions C06_foreign_bytes_transparent.
 Print Assumptions C06_foreign_message_bytes.
 Print Assumptions C06_boundary_condition_needed.
+Print Assumptions C06_is_status_byte_spec.
+Print Assumptions C06_is_system_message_spec.
+Print Assumptions C06_decode_voice_message.
+Print Assumptions C06_cc_bytes_any_state.
+Print Assumptions C06_note_on_bytes_any_state.
+Print Assumptions C06_note_off_bytes_any_state.
+Print Assumptions C06_pitch_bend_bytes_any_state.
